@@ -74,6 +74,7 @@ type Engine struct {
 	globalIDs   map[*ssa.Global][2]int
 	overlay     map[string]string
 	srcLines    map[string][]string
+	fnByName    map[string]*ssa.Function
 	curInstr    ssa.Instruction
 	inAtomic    bool
 	NoDiamond   bool
@@ -127,6 +128,15 @@ type State struct {
 	shared  map[int]bool    // objects reachable by other goroutines (thread-modular ownership check)
 	sharing bool
 	locks   int
+	syncMaps map[int][]MapEntry
+	stubs    []stubRec
+}
+
+// stubRec remembers one call of a contract stub: its arguments (option structs are read back by the harness)
+type stubRec struct {
+	name   string
+	args   []Value
+	failed bool
 }
 
 type snapRec struct {
@@ -145,6 +155,13 @@ func (st *State) clone() *State {
 	n.reached = append([]string(nil), st.reached...)
 	n.snaps = append([]snapRec(nil), st.snaps...)
 	n.poolPolicy, n.sharing, n.locks = st.poolPolicy, st.sharing, st.locks
+	n.stubs = append([]stubRec(nil), st.stubs...)
+	if st.syncMaps != nil {
+		n.syncMaps = map[int][]MapEntry{}
+		for k, v := range st.syncMaps {
+			n.syncMaps[k] = v
+		}
+	}
 	if st.shared != nil {
 		n.shared = make(map[int]bool, len(st.shared))
 		for k := range st.shared {
@@ -2246,6 +2263,43 @@ func (e *Engine) intrinsic(st *State, f *Frame, x *ssa.Call, fn *ssa.Function, n
 	case "verifSameObject":
 		a, b := args[0].(SliceV), args[1].(SliceV)
 		return BoolC(a.Obj != 0 && a.Obj == b.Obj), true
+	case "verifCalled":
+		want := "call " + e.strConst(st, args[0])
+		for _, l := range st.log {
+			if l == want {
+				return True(), true
+			}
+		}
+		return False(), true
+	case "verifStubFailed":
+		want := e.strConst(st, args[0])
+		for i := len(st.stubs) - 1; i >= 0; i-- {
+			if st.stubs[i].name == want {
+				return BoolC(st.stubs[i].failed), true
+			}
+		}
+		return False(), true
+	case "verifStubBool", "verifStubStrLen":
+		want, field := e.strConst(st, args[0]), e.strConst(st, args[1])
+		for i := len(st.stubs) - 1; i >= 0; i-- {
+			if st.stubs[i].name != want {
+				continue
+			}
+			v := e.stubField(st, fn, st.stubs[i], field)
+			if short == "verifStubStrLen" {
+				return v.(StringV).Len, true
+			}
+			return v, true
+		}
+		panic("verifStub*: the stub " + want + " was not called on this path")
+	case "verifCalledPrefix":
+		want := "call " + e.strConst(st, args[0])
+		for _, l := range st.log {
+			if strings.HasPrefix(l, want) {
+				return True(), true
+			}
+		}
+		return False(), true
 	case "verifNote":
 		return nil, true
 	case "verifNative":
@@ -2313,9 +2367,42 @@ func (e *Engine) intrinsic(st *State, f *Frame, x *ssa.Call, fn *ssa.Function, n
 		}
 		return IfaceV{T: e.reflectTok, V: iv}, true
 	case "(*sync.Map).Load":
+		mp := args[0].(PtrV)
+		key := e.syncMapKey(args[1])
+		for _, en := range st.syncMaps[mp.Obj] {
+			if en.K.(string) == key {
+				return TupleV{en.V, True()}, true
+			}
+		}
 		return TupleV{IfaceV{}, False()}, true
 	case "(*sync.Map).Store":
+		mp := args[0].(PtrV)
+		if st.sharing && st.shared[mp.Obj] {
+			// a sync.Map is safe for concurrent use: not an ownership violation
+		}
+		key := e.syncMapKey(args[1])
+		ents := append([]MapEntry(nil), st.syncMaps[mp.Obj]...)
+		replaced := false
+		for i := range ents {
+			if ents[i].K.(string) == key {
+				ents[i].V = args[2]
+				replaced = true
+			}
+		}
+		if !replaced {
+			ents = append(ents, MapEntry{key, args[2]})
+		}
+		if st.syncMaps == nil {
+			st.syncMaps = map[int][]MapEntry{}
+		}
+		st.syncMaps[mp.Obj] = ents
 		return nil, true
+	case "github.com/gogo/protobuf/proto.MessageName":
+		// contract: the registered name of a message type generated by (and registered with) gogo, else ""
+		if iv, ok := args[0].(IfaceV); ok && iv.T != nil && strings.Contains(types.TypeString(iv.T, nil), "github.com/gogo/protobuf/") {
+			return e.constString("gogo.registered.Name"), true
+		}
+		return e.constString(""), true
 	case "fmt.Sprintf":
 		return e.constString("<sprintf>"), true
 	case "(*strings.Builder).WriteString":
@@ -2330,6 +2417,34 @@ func (e *Engine) intrinsic(st *State, f *Frame, x *ssa.Call, fn *ssa.Function, n
 		return c64(0), true
 	case "(*strings.Builder).String":
 		return e.constString("<strings.Builder>"), true
+	case "reflect.ValueOf":
+		iv := args[0].(IfaceV)
+		return StructV{Fields: []Value{iv}}, true
+	case "(reflect.Value).Kind":
+		iv := args[0].(StructV).Fields[0].(IfaceV)
+		if iv.T == nil {
+			return c64(0), true
+		}
+		return c64(reflectKind(iv.T)), true
+	case "(reflect.Value).IsNil":
+		iv := args[0].(StructV).Fields[0].(IfaceV)
+		if iv.T == nil {
+			e.require(st, False(), "panic", "reflect: call of reflect.Value.IsNil on zero Value", x)
+		}
+		switch v := iv.V.(type) {
+		case PtrV:
+			return BoolC(v.Obj == 0), true
+		case SliceV:
+			return BoolC(v.Obj == 0), true
+		case MapV:
+			return BoolC(v.Obj == 0), true
+		case IfaceV:
+			return BoolC(v.T == nil), true
+		case FuncV:
+			return BoolC(v.Fn == nil && v.Blt == nil), true
+		}
+		e.require(st, False(), "panic", "reflect: call of reflect.Value.IsNil on a non-nilable kind", x)
+		return False(), true
 	case "errors.Is":
 		return BoolC(e.errorsIs(st, args[0].(IfaceV), args[1].(IfaceV), 0)), true
 	case "sort.Strings":
@@ -2367,6 +2482,11 @@ func (e *Engine) intrinsic(st *State, f *Frame, x *ssa.Call, fn *ssa.Function, n
 		pp := fn.Pkg.Pkg.Path()
 		if e.stubPkgs[pp] {
 			e.logCall(st, "call "+name)
+			st.stubs = append(st.stubs, stubRec{name: name, args: args})
+			if e.fnByName == nil {
+				e.fnByName = map[string]*ssa.Function{}
+			}
+			e.fnByName[name] = fn
 			e.freshResults(st, x, fn.Signature, name)
 			return f.env[x], true
 		}
@@ -2393,8 +2513,82 @@ func (e *Engine) intrinsicMethod(st *State, f *Frame, x *ssa.Call, recv IfaceV, 
 			f.env[x] = prof.Kind
 			return true
 		}
+		f.env[x] = c64(reflectKind(inner.T))
+		return true
 	}
 	return false
+}
+
+// reflectKind is reflect.Kind of a static type
+func reflectKind(t types.Type) uint64 {
+	switch u := t.Underlying().(type) {
+	case *types.Basic:
+		switch u.Kind() {
+		case types.Bool:
+			return 1
+		case types.Int:
+			return 2
+		case types.Int8:
+			return 3
+		case types.Int16:
+			return 4
+		case types.Int32:
+			return 5
+		case types.Int64:
+			return 6
+		case types.Uint:
+			return 7
+		case types.Uint8:
+			return 8
+		case types.Uint16:
+			return 9
+		case types.Uint32:
+			return 10
+		case types.Uint64:
+			return 11
+		case types.Uintptr:
+			return 12
+		case types.Float32:
+			return 13
+		case types.Float64:
+			return 14
+		case types.String:
+			return 24
+		case types.UnsafePointer:
+			return 26
+		}
+	case *types.Array:
+		return 17
+	case *types.Chan:
+		return 18
+	case *types.Signature:
+		return 19
+	case *types.Interface:
+		return 20
+	case *types.Map:
+		return 21
+	case *types.Pointer:
+		return 22
+	case *types.Slice:
+		return 23
+	case *types.Struct:
+		return 25
+	}
+	return 0
+}
+
+func (e *Engine) syncMapKey(v Value) string {
+	iv, ok := v.(IfaceV)
+	if !ok || iv.T == nil {
+		return "nil"
+	}
+	if iv.T == e.reflectTok {
+		if inner, ok := iv.V.(IfaceV); ok && inner.T != nil {
+			return "type:" + types.TypeString(inner.T, nil)
+		}
+		return "type:nil"
+	}
+	return fmt.Sprintf("val:%s:%v", types.TypeString(iv.T, nil), iv.V)
 }
 
 // ---- reporting ----
